@@ -497,15 +497,16 @@ def stress_cases(rng, tier):
             i = rng.randrange(len(p))
             p[i] = mutate_line(rng, p[i])
         yield (p, {"kind": "mut"})
-    # characters outside 7-bit ASCII anywhere in a line (Latin-1 ones go through the model too; wider ones are judged
-    # on the implementation alone): strings, labels, operands, comments
+    # characters outside 7-bit ASCII anywhere in a line: strings, labels, operands, comments
     wide = ["\u00e9", "\u00ff", "\u0100", "\u20ac", "\U0001F600", "\u0009", "\u007f", "\u00a0"]
     shapes = [' FCC "A%sB"\n', ' FCC /%s/\n', "L%s NOP\n", " LDA #'%s\n", " NAM caf%s\n", " LDA #1 ; %s\n", " FCB %s\n", " LDA %s,X\n",
               ' FCC "%s%s"\n', " JMP L%s\n"]
     for sh in shapes:
         for w in wide:
             ln = sh % ((w,) * sh.count("%s"))
-            yield ([ln, " NOP\n"], {"kind": "edge", "impl_only": any(ord(c) > 255 for c in ln)})
+            # the model's alphabet is 7-bit ASCII (Python's \w also takes accented letters): anything beyond it is judged
+            # on the implementation alone - result or diagnostic, never an uncaught exception
+            yield ([ln, " NOP\n"], {"kind": "edge", "impl_only": any(ord(c) > 127 for c in ln)})
     alphabet = " \tABXYZLDNOPRMB019#$%<>[],+-;'\"*/@._\n"
     for _ in range(1500 if q else 30000):
         p = ["".join(rng.choice(alphabet[:-1]) for _ in range(rng.randrange(0, 16))) + "\n" for _ in range(rng.choice([1, 2, 3]))]
